@@ -321,7 +321,10 @@ fn read_codec(metadata: &HashMap<String, Value>) -> AvroResult<Codec> {
                         if let Some(Value::Bytes(bytes)) =
                             metadata.get("avro.codec.compression_level")
                         {
-                            Ok(Codec::Bzip2(Bzip2Settings::new(bytes[0])))
+                            bytes
+                                .first()
+                                .map(|level| Codec::Bzip2(Bzip2Settings::new(*level)))
+                                .ok_or_else(|| Details::BadCodecMetadata.into())
                         } else {
                             Ok(codec)
                         }
@@ -332,7 +335,10 @@ fn read_codec(metadata: &HashMap<String, Value>) -> AvroResult<Codec> {
                         if let Some(Value::Bytes(bytes)) =
                             metadata.get("avro.codec.compression_level")
                         {
-                            Ok(Codec::Xz(XzSettings::new(bytes[0])))
+                            bytes
+                                .first()
+                                .map(|level| Codec::Xz(XzSettings::new(*level)))
+                                .ok_or_else(|| Details::BadCodecMetadata.into())
                         } else {
                             Ok(codec)
                         }
@@ -343,7 +349,10 @@ fn read_codec(metadata: &HashMap<String, Value>) -> AvroResult<Codec> {
                         if let Some(Value::Bytes(bytes)) =
                             metadata.get("avro.codec.compression_level")
                         {
-                            Ok(Codec::Zstandard(ZstandardSettings::new(bytes[0])))
+                            bytes
+                                .first()
+                                .map(|level| Codec::Zstandard(ZstandardSettings::new(*level)))
+                                .ok_or_else(|| Details::BadCodecMetadata.into())
                         } else {
                             Ok(codec)
                         }
